@@ -216,8 +216,18 @@ func runC16(r *mon.Run) {
 			mode := (i + vt) % 4
 			rcvIdx := -1
 			switch {
-			case mode == 1 && l > 0:
+			case (mode == 1 || (l >= 31 && mode != 3)) && l > 0:
 				rcvIdx = rng.Intn(l)
+				if l >= 31 && rng.Bool() {
+					// long lists: the receiver at the end and just behind the powers of two, where
+					// an implementation that works in chunks starts its second, third ... chunk
+					c := []int{l - 1, l - 2, 32, 64, 128, 256, 512, 1024, 2048, 4096, 4097}
+					if k := c[rng.Intn(len(c))]; k < l {
+						rcvIdx = k
+					} else {
+						rcvIdx = l - 1
+					}
+				}
 				v = ps[rcvIdx]
 				w.Class("c16:rcv-in-inputs")
 			case mode == 2 && l > 1:
